@@ -24,7 +24,7 @@ func init() {
 			"C17 filter arguments: every value present in the state plus near-miss absent values (proper prefixes/extensions of ids, denoms, reference ids, URLs and IRIs; 19/21/32-byte variants of addresses; unknown and malformed values)",
 			"C17 oracle: brute-force filter over the primary-key full scan (snapshot); lists compared as multisets (no order demanded); total demanded only when count_total is set, no key is given and offset < N (the ORM counts only the remainder when a key is given and answers 0/N for offset >= N: recorded as observation counters)",
 			"C17: an error is accepted instead of an empty list when the entity named by the filter argument does not exist or the argument is malformed; Balance and BasketBalance may answer zero for a missing row",
-			"C17: (query, argument) pairs with more than 100 matching rows are outside the bound (default page limit of an un-paginated request) and counted as skipped_over_100",
+			"C17: (paged query, argument) pairs with more than 100 matching rows are outside the bound (default page limit of an un-paginated request) and counted as skipped_over_100; queries without pagination must answer in full",
 			"C17: a (query, argument) pair is re-enumerated only when the rows of the tables its handler reads differ from a state already checked by the same worker (memo on a content hash of these tables; sound because handlers are deterministic functions of these rows)")
 	}
 }
